@@ -29,18 +29,19 @@ func IDIndex(id string) int {
 
 // Op is one step of a case.
 type Op struct {
-	Op    string `json:"op"` // subscribe unsubscribe mutate echo url unknown badmsg malformed set fail cancel close pause release
-	ID    string `json:"id,omitempty"`
-	Q     int    `json:"q,omitempty"`
-	Field string `json:"field,omitempty"`
-	Int   int64  `json:"int,omitempty"`
-	Str   string `json:"str,omitempty"`
-	Obj   *Inner `json:"obj,omitempty"`
-	Items []Item `json:"items,omitempty"`
-	Perm  bool   `json:"perm,omitempty"` // set: permanent Invalidate + fresh resource instead of Strobe
-	N     int    `json:"n,omitempty"`    // fail: number of failing executions
-	Mode  string `json:"mode,omitempty"` // fail: plain safe panic ; badmsg: sub | mut ; url: ok | bad
-	Sync  string `json:"sync,omitempty"` // settle | handled | none (default settle)
+	Op    string                 `json:"op"` // subscribe unsubscribe mutate echo url unknown badmsg malformed set fail cancel close pause release
+	ID    string                 `json:"id,omitempty"`
+	Q     int                    `json:"q,omitempty"`
+	Vars  map[string]interface{} `json:"vars,omitempty"` // subscribe: the variables of the query
+	Field string                 `json:"field,omitempty"`
+	Int   int64                  `json:"int,omitempty"`
+	Str   string                 `json:"str,omitempty"`
+	Obj   *Inner                 `json:"obj,omitempty"`
+	Items []Item                 `json:"items,omitempty"`
+	Perm  bool                   `json:"perm,omitempty"` // set: permanent Invalidate + fresh resource instead of Strobe
+	N     int                    `json:"n,omitempty"`    // fail: number of failing executions
+	Mode  string                 `json:"mode,omitempty"` // fail: plain safe panic ; badmsg: sub | mut ; url: ok | bad
+	Sync  string                 `json:"sync,omitempty"` // settle | handled | none (default settle)
 }
 
 type Case struct {
@@ -479,7 +480,7 @@ func (p *player) snapshot(at int) {
 			p.res.Snaps = append(p.res.Snaps, Snap{Gen: g.Gen, Updates: -1, Want: nil, At: at})
 			continue
 		}
-		want, err := FreshExecute(p.w, SubQueries[p.res.Fed[g.Msg].Q%len(SubQueries)])
+		want, err := FreshExecute(p.w, SubQueries[p.res.Fed[g.Msg].Q%len(SubQueries)], p.res.Fed[g.Msg].Vars)
 		if err != nil {
 			continue
 		}
@@ -542,7 +543,11 @@ func (p *player) feed(o Op, raw []byte) {
 func (p *player) play(i int, o Op) {
 	switch o.Op {
 	case "subscribe":
-		p.feed(o, envelope(o.ID, "subscribe", map[string]interface{}{"query": SubQueries[o.Q%len(SubQueries)]}))
+		m := map[string]interface{}{"query": SubQueries[o.Q%len(SubQueries)]}
+		if o.Vars != nil {
+			m["variables"] = o.Vars
+		}
+		p.feed(o, envelope(o.ID, "subscribe", m))
 	case "mutate":
 		p.feed(o, envelope(o.ID, "mutate", map[string]interface{}{"query": MutQueries[o.Q%len(MutQueries)]}))
 	case "unsubscribe":
